@@ -36,6 +36,8 @@ from symx.snp import SArr
 from props import tok_common as T
 from props import c15 as K  # parameter-space derivation (skeletons, real_instances)
 
+from props import alias_common as _alias
+
 ID = "C06"
 VERIF = Path(__file__).resolve().parent.parent
 
@@ -788,6 +790,7 @@ def jobs(tier, seed):
             tk.append(dict(seq="AOTP", ct=ct_ut, al=int(rng.integers(len(als))), pt=int(rng.integers(len(pts))), tt=0))
             out.append(dict(h="stream", toks=tk, maze=dict(n=n, kind="SolvedMaze", base=b.astype(int).tolist(), sym_bits=_sym_positions(b, 1 if n > 13 else 2, rng), ends=_far(b), rowcol=False)))
     out.sort(key=lambda j: 0 if (j["h"] == "isconn" and j["n"] >= 20) else 1)
+    out.append(dict(_alias.ALIAS_JOB))  # results must not alias library state, arguments or each other (props/alias_common.py)
     return out
 
 
@@ -812,6 +815,7 @@ HARNESSES = {
     "stream": dict(run=_run_stream, replay=_replay_stream, patch=_P),
     "path_forks": dict(run=_run_path_forks, replay=_replay_path_forks, patch=_P),
 }
+HARNESSES["alias"] = _alias.alias_harness("C06")
 
 META = dict(
     functions=["_AdjListTokenizer.to_tokens/_tokenize_edge_grouping", "AdjListCoord/AdjListCardinal._tokenization_callables", "EdgeSubsets.*._get_edges", "EdgePermuters.*._permute",
@@ -838,3 +842,5 @@ META = dict(
     assumptions=["token texts and the vocabulary are the published ones (written out in this file / refs/vocab_list_4096.json)",
                  "Forks includes both endpoints and every interior solution cell with more than two open neighbours"],
 )
+
+META.setdefault("degenerate", {})["alias"] = _alias.ALIAS_META
